@@ -13,7 +13,8 @@
      sh, sf, sl        show_header / show_footer / show_lines;   lead : leading
      pl, pr            horizontal cell padding (left, right);    pe : pad_edge;   cp : collapse_padding
      ex                expand;   w, minw : Table.width / Table.min_width (0 = None)
-     cols[j]           [ov : "fold"|"crop"|"ellipsis", ratio (-1 = None), w, minw, maxw (0 = None), nw : no_wrap]
+     cols[j]           [ov : "fold"|"crop"|"ellipsis"|"ignore", ratio (-1 = None; 0 is a ratio: a flexible column that asks
+                       for no share), w, minw, maxw (0 = None), nw : no_wrap]
      grid              the SHOWN cell rows, top to bottom: [rid, cells]; rid 0 = header (only if sh),
                        1..nr = rows in insertion order, nr+1 = footer (only if sf); cells[j] is a cell
                        descriptor:  [k |-> "txt", wide, wl]      text; wide: a double-width character
@@ -33,9 +34,11 @@
                               every cell is written in an alphabet of its own)
                 3  filler    (blank that cannot be attributed)
                 4  stray     (anything else - never legitimate inside a body line)
-   cells[n] = [r, c, ord, src, out]: src = the non-whitespace code points of cell (r, c) as given to
+   cells[n] = [r, c, ord, src, out, cov, cnw]: src = the non-whitespace code points of cell (r, c) as given to
            the table, out = the code points of that cell's alphabet found in the render, read line by
-           line, left to right; ord = FALSE for nested tables (reading order is not cell order).
+           line, left to right; ord = FALSE for nested tables (reading order is not cell order);
+           cov / cnw = the overflow ("" = none) / no_wrap = True a Text cell carries ITSELF: rich.text.Text lets
+           them win over the column's options, so such a cell is cut by its own request, not by the table.
 
    STRUCTURAL MINIMUM (the quantifier: "available widths at or above the structural minimum"):
      TableMin(t) = Edges + Dividers + SUM_j (PadL(j) + PadR(j) + ColMin(j))
@@ -48,8 +51,7 @@
                    for a panel; TableMin for a nested table.
      This is the same rule as Layout.tla's TableStruct (C01), extended conservatively (larger) by the
      width / min_width / no_wrap terms, which C01 leaves out of scope altogether.
-   InScope(t, W) additionally requires: 1..6 columns; ratio None or >= 1 (a ratio of 0 asks for no
-     share); a no_wrap column holds text only (a nested renderable that may not shrink has no structural width); a column width / max_width that is not smaller than the column's content minimum and
+   InScope(t, W) additionally requires: 1..6 columns; ratio None or >= 0; a no_wrap column holds text only (a nested renderable that may not shrink has no structural width); a column width / max_width that is not smaller than the column's content minimum and
      min_width <= max_width (otherwise the options ask for the impossible); Table.width, if given,
      between TableMin and W.  Everything else is "outside": no demand, no alarm.                  *)
 EXTENDS Integers, Sequences, FiniteSets
@@ -90,7 +92,7 @@ TableMin(t) == Edges(t) + Dividers(t) + TSum([j \in 1..t.nc |-> PadL(t, j) + Pad
 ColCapOK(t, j) == LET c == t.cols[j] IN
     /\ c.w = 0 \/ c.w >= ContentMin(t, j)
     /\ c.maxw = 0 \/ (c.maxw >= ContentMin(t, j) /\ c.maxw >= c.minw)
-    /\ c.ratio = -1 \/ c.ratio >= 1
+    /\ c.ratio >= -1
     /\ c.nw => \A g \in DOMAIN t.grid : t.grid[g].cells[j].k = "txt"      \* a nested renderable that may not shrink: no structural rule
 RECURSIVE NestedOK(_)
 NestedOK(x) == CASE x.k = "txt" -> TRUE
@@ -201,27 +203,54 @@ RowOrder(t, L) == RowsWhy(t, L)[1] = "ok"
 \* ---- CellsInColumn, part 2 (fold columns): every character, in order ---------------------------
 Count(s, x) == Cardinality({i \in DOMAIN s : s[i] = x})
 SameBag(a, b) == Len(a) = Len(b) /\ \A i \in DOMAIN a : Count(a, a[i]) = Count(b, a[i])
-Demanded(t, cell) == t.cols[cell.c].ov = "fold" /\ ~t.cols[cell.c].nw
+\* the column folds and wraps, and the cell does not itself ask for anything else
+Demanded(t, cell) == /\ t.cols[cell.c].ov = "fold" /\ ~t.cols[cell.c].nw
+                     /\ cell.cov \in {"", "fold"} /\ ~cell.cnw
 CellOK(cell) == IF cell.ord THEN cell.out = cell.src ELSE SameBag(cell.out, cell.src)
 \* room[c] = the cells the render gives column c (with a box: the c-th gap between the borders of a row
 \* line; without: the hull of what is attributable to it).  A column is STARVED when that is less than its
 \* padding plus the content minimum of its cells although the table as a whole had W >= TableMin: the
 \* width solver took the cells from the wrong column.  The demand is the same (characters missing); the
 \* name of the clause separates this family (solver not minimum-aware) from any other loss of characters.
+\* "The wrong column" is part of the name: the body is as wide as it may be (w0 >= lim: the available width, or
+\* Table.width) or another column holds more than its own need.  A column squeezed in a table that is narrower than
+\* it may be while no other column has a cell to spare is a different matter (the table did not use the width it was
+\* given) and gets a name of its own.
+\* The SHAPE of that family, as far as it can be read off the render (room = the cells each column was given).  The solver
+\* squeezes a column in two ways only: (1) _collapse_widths levels the widest columns down to a common width - a column that
+\* lost cells there is as wide as the widest of its peers (peers: columns that may shrink and that nothing re-widens
+\* afterwards - no width, no min_width, not no_wrap; ratio_reduce rounds, the expand step spreads a remainder: two cells of
+\* tolerance); (2) a ratio column of an expanding table gets its share, but never less than one cell plus its padding.  A
+\* column of text cells that is narrower than a peer AND below that floor was not squeezed by either: whatever lost its
+\* characters, it is not this family, and the clause says so.  (A column that holds a nested renderable is measured by
+\* that renderable - its width after the re-measure is the renderable's business; it keeps the family's name.)
 Need(t, c) == PadL(t, c) + PadR(t, c) + ContentMin(t, c)
-CellsWhyOf(t, cells, room) ==
+Expanding(t) == t.ex \/ t.w # 0
+TxtOnly(t, c) == \A g \in DOMAIN t.grid : t.grid[g].cells[c].k = "txt"
+Peer(t, d) == t.cols[d].w = 0 /\ t.cols[d].minw = 0 /\ ~t.cols[d].nw
+AtWaterLevel(t, room, c) == \A d \in 1..t.nc : (d # c /\ Peer(t, d)) => room[d] <= room[c] + 2
+RatioFloor(t, room, c) == Expanding(t) /\ t.cols[c].ratio >= 0 /\ room[c] >= PadL(t, c) + PadR(t, c) + 1
+\* exact: room was measured between the borders of a box; without a box it is only the hull of what can be attributed to
+\* the column (a cell squeezed to nothing leaves blanks nobody can attribute) - too coarse to compare columns: family name
+SqueezedBySolver(t, room, c, exact) == ~exact \/ ~TxtOnly(t, c) \/ AtWaterLevel(t, room, c) \/ RatioFloor(t, room, c)
+CellsWhyOf(t, cells, room, w0, lim, exact) ==
     LET bad == {n \in DOMAIN cells : Demanded(t, cells[n]) /\ ~CellOK(cells[n])} IN
     IF bad = {} THEN <<"ok", 0>>
     ELSE LET n == SetMin(bad)
              cell == cells[n]
+             spare == \E d \in 1..t.nc : room[d] > Need(t, d)
          IN <<IF Len(cell.out) < Len(cell.src)
-                 THEN (IF room[cell.c] < Need(t, cell.c) THEN "cell:missing-in-starved-column"
+                 THEN (IF room[cell.c] < Need(t, cell.c)
+                          THEN (IF ~(w0 >= lim \/ spare) THEN "cell:missing-table-narrower-than-available"
+                                ELSE IF SqueezedBySolver(t, room, cell.c, exact) THEN "cell:missing-in-starved-column"
+                                ELSE IF Expanding(t) /\ t.cols[cell.c].ratio >= 0 THEN "cell:missing-in-ratio-column-below-its-floor"
+                                ELSE "cell:missing-in-column-narrower-than-its-peers")
                        ELSE IF ~cell.ord THEN "cell:missing-in-nested-table"      \* the inner table's own solver
                        ELSE "cell:characters-missing")
               ELSE IF Len(cell.out) > Len(cell.src) THEN "cell:characters-repeated"
               ELSE "cell:characters-out-of-order", n>>
 NoRoomInfo(t) == [c \in 1..t.nc |-> Need(t, c)]
-CellsWhy(t, cells) == CellsWhyOf(t, cells, NoRoomInfo(t))
+CellsWhy(t, cells) == CellsWhyOf(t, cells, NoRoomInfo(t), 0, 0, FALSE)
 \* sorted border offsets -> gap widths
 RoomOf(t, L, sp, ref, w0) ==
     IF t.box /\ Cardinality(ref) = Edges(t) + Dividers(t)
@@ -250,7 +279,8 @@ TableWhy(t, W, exc, L, cells) ==
             ELSE IF expand[1] # "ok" THEN expand
             ELSE IF rows[1] # "ok" THEN rows
             ELSE IF spans[1] # "ok" THEN spans
-            ELSE CellsWhyOf(t, cells, RoomOf(t, L, sp, RefOf(bp, RL), WidthOfIn(L, BL)))
+            ELSE CellsWhyOf(t, cells, RoomOf(t, L, sp, RefOf(bp, RL), WidthOfIn(L, BL)), WidthOfIn(L, BL),
+                            IF t.w # 0 THEN t.w ELSE W, t.box /\ Cardinality(RefOf(bp, RL)) = Edges(t) + Dividers(t))
 TableOK(t, W, exc, L, cells) == TableWhy(t, W, exc, L, cells)[1] \in {"ok", "outside"}
 
 \* ---- where the statement is silent: DRIFT notes only -----------------------------------------
